@@ -367,5 +367,7 @@ def run(ctx):
     views(ctx, crate)
     ctx.not_decided("that the merges of and/or/xor preserve order for all inputs; hash < 12*4^depth of pushed values (C01's float clause); sortedness typestate of the root lists (see C12/C13 rules)")
     ctx.extra["exhaustive"] = ctx.tier == "thorough"
+    from rules.c15 import push_invariant
+    push_invariant(ctx, crate)
     from rules import controls
     controls.bits_controls(ctx)
